@@ -51,6 +51,7 @@ let runners : (string * (z list -> z list)) list = [
   "vec", run_vec;
   "vec_intcast", run_vec_intcast;
   "segidx", run_segidx;
+  "cpq", run_cpq;
 ]
 
 let () =
